@@ -23,7 +23,7 @@ func init() {
 		Run:      runC17,
 		Examples: true,
 		Meta: core.PropertyMeta{
-			Explanation: "(1) For every method of every service whose generated code is committed, decided against the *descriptor* embedded in the sibling .pb.go (decoded from its byte literal, never by importing the package): B1 bijection between descriptor methods, registered handler names and stub Method strings; B2 request/reply/result Go types; B3 receiver, call-data type, raw entry point, ServerStream literal, per-node function and call options exactly as the method's options say; B4 server reply discipline (one reply per unary call echoing in.Metadata with the implementation's results; stream handlers clone the metadata per reply and send a final message only on error; one-way handlers send nothing; all defer Release first); B5 QuorumSpec = exactly the quorum functions the stubs call, with descriptor-typed signatures; typed accessors (K8). (2) U1: every committed *_gorums.pb.go equals, declaration by declaration and token by token (comments and formatting aside, package qualifiers compared by import path), the expansion of the *current* template constants - folded from the generator's AST and interpreted by the checker's own text/template with a reference funcMap driven by the decoded descriptors; the funcMap's option dependencies and the three option helper functions are cross-checked against the generator's AST (U1b). U2: the declarations of the bundled staticCode literal equal those of the dev package's static sources; pkgIdentMap names exported identifiers of the packages it lists. U3: the version marker of every committed file equals the runtime's GenVersion.",
+			Explanation: "(1) For every method of every service whose generated code is committed, decided against the *descriptor* embedded in the sibling .pb.go (decoded from its byte literal, never by importing the package): B1 bijection between descriptor methods, registered handler names and stub Method strings; B2 request/reply/result Go types; B3 receiver, call-data type, raw entry point, ServerStream literal, per-node function and call options exactly as the method's options say; B4 server reply discipline (one reply per unary call echoing in.Metadata with the implementation's results; stream handlers clone the metadata per reply and send a final message only on error; one-way handlers send nothing; all defer Release first); B5 QuorumSpec = exactly the quorum functions the stubs call, with descriptor-typed signatures; typed accessors (K8). (2) U1: every committed *_gorums.pb.go equals, declaration by declaration and token by token (comments and formatting aside, package qualifiers compared by import path), the expansion of the *current* template constants - folded from the generator's AST and interpreted by the checker's own text/template with a reference funcMap driven by the decoded descriptors; the funcMap's option dependencies and the three option helper functions are cross-checked against the generator's AST (U1b). U2: the declarations of the bundled staticCode literal equal those of the dev package's static sources; pkgIdentMap names exported identifiers of the packages it lists. U3: the version marker of every committed file equals the runtime's GenVersion. B10: field() selects a part of the type name and does not rewrite it.",
 			NotDecided:  "'Behaves like the checked-in ones' at run time; services that are not committed (covered only through the templates themselves); leading doc comments copied from .proto sources (the embedded descriptors carry no source info; comments are set aside by the property); protogen's import naming.",
 			Trusted:     append([]string{"text/template semantics of the Go standard library", "protoc-gen-go embeds the FileDescriptorProto of the .proto it was run on"}, commonTrust...),
 		},
